@@ -85,6 +85,20 @@ type server struct {
 	// at once (servers may announce a session at any time, e.g. after a reset)
 	sessionAfterConfig bool
 	update             []byte // an encoded updateShort
+	// session announcements beyond the two above (TestC30TwoClients): salts
+	// saltBase+1.. before the config answer, saltBase+0x100.. after it, the
+	// latter afterGap apart. saltBase 0 = 0x4444 / 0x5555 only.
+	saltBase    int64
+	extraBefore int
+	extraAfter  int
+	afterGap    time.Duration
+}
+
+func (s *server) firstSalt() int64 {
+	if s.saltBase != 0 {
+		return s.saltBase
+	}
+	return 0x4444
 }
 
 func (s *server) dial(ctx context.Context, network, addr string) (net.Conn, error) {
@@ -105,7 +119,10 @@ func (s *server) dial(ctx context.Context, network, addr string) (net.Conn, erro
 		}
 		if first {
 			first = false
-			_ = p.Send(p.NextID(3), 1, pbt.NewSessionCreated(m.MsgID, int64(idx+1), 0x4444))
+			_ = p.Send(p.NextID(3), 1, pbt.NewSessionCreated(m.MsgID, int64(idx+1), s.firstSalt()))
+			for k := 1; k <= s.extraBefore; k++ {
+				_ = p.Send(p.NextID(3), 1, pbt.NewSessionCreated(m.MsgID, int64(idx+1+10*k), s.saltBase+int64(k)))
+			}
 		}
 		if id, ok := pbt.PingID(m.Body); ok {
 			_ = p.Send(p.NextID(1), 0, pbt.Pong(m.MsgID, id))
@@ -124,6 +141,16 @@ func (s *server) dial(ctx context.Context, network, addr string) (net.Conn, erro
 			s.mu.Unlock()
 			if again {
 				_ = p.Send(p.NextID(3), 1, pbt.NewSessionCreated(m.MsgID, int64(idx+101), 0x5555))
+			}
+			if s.extraAfter > 0 {
+				go func(first int64) {
+					for k := 0; k < s.extraAfter; k++ {
+						time.Sleep(s.afterGap)
+						if p.Send(p.NextID(3), 1, pbt.NewSessionCreated(first, int64(idx+201+k), s.saltBase+0x100+int64(k))) != nil {
+							return
+						}
+					}
+				}(m.MsgID)
 			}
 			return
 		}
